@@ -1,8 +1,5 @@
 (* C17: what "every prefix used is declared on output" and "escaping is
-   reversible" mean, independently of the serializer's bookkeeping; plus the
-   description of the finding classes (an instrumented run of the serializer
-   that only ADDS ghost information: which map entries were registered
-   silently, i.e. without a declaration being written). *)
+   reversible" mean, independently of the serializer's bookkeeping. *)
 From Coq Require Import List NArith Bool.
 From HV Require Import XmlNs.XTreeModel XmlNs.XSerModel.
 Import ListNotations.
@@ -60,113 +57,34 @@ Fixpoint adequate (is : list item) (sc : list nsmap) : bool :=
   | _ :: r => adequate r sc
   end.
 
-(* ----------------------------------- the serializer with ghost information *)
+(* ------------------------------------------- what one tag can express *)
 
-(* [ph] runs parallel to the scope stack: the keys of each map whose entry was
-   registered WITHOUT a declaration being written (by an attribute name after
-   the declarations went out, or by end_elem into the parent's map) *)
-Definition pstack := list (list (option str)).
+(* One tag can bind a prefix to one URI only, and an unprefixed attribute is in
+   no namespace: these are not defects of a serializer but limits of the
+   syntax.  (The parser never produces a tree that violates them.) *)
+Definition same_binding (a b : qname) : bool :=
+  negb (ostr_eqb (qprefix a) (qprefix b)) || str_eqb (qns a) (qns b).
 
-Definition needs_ns (q : qname) : bool := negb (is_none (qprefix q)) || negb (is_nil (qns q)).
+Definition tag_names (name : qname) (attrs : list attr) : list qname :=
+  name :: map aname (filter (fun a => negb (is_none (qprefix (aname a)))) attrs).
 
-Definition okey_mem (k : option str) (l : list (option str)) : bool := existsb (ostr_eqb k) l.
+Definition elem_cons (name : qname) (attrs : list attr) : bool :=
+  forallb (fun a => forallb (same_binding a) (tag_names name attrs)) (tag_names name attrs) &&
+  forallb (fun a => negb (is_none (qprefix (aname a))) || is_nil (qns (aname a))) attrs.
 
-(* was the entry that makes find_uri succeed registered silently? *)
-Fixpoint via_silent (st : sstack) (ph : pstack) (q : qname) : bool :=
-  match st, ph with
-  | m :: r, p :: pr =>
-    match nm_get m (qprefix q) with
-    | Some (Some _) => okey_mem (qprefix q) p
-    | _ => via_silent r pr q
-    end
-  | _, _ => false
-  end.
-
-Definition has_default (st : sstack) : bool :=
-  existsb (fun m => negb (is_none (nm_get m None))) st.
-
-Definition silent_insert (st : sstack) (ph : pstack) (q : qname) : sstack * pstack :=
-  match st, ph with
-  | m :: r, p :: pr => (sm_insert m q :: r, (qprefix q :: p) :: pr)
-  | _, _ => (st, ph)
-  end.
-
-(* registering an attribute name: flag = the bookkeeping went wrong *)
-Definition reg_attr_g (st : sstack) (ph : pstack) (a : attr) : sstack * pstack * bool :=
-  let q := aname a in
-  if needs_ns q then
-    if s_find_uri st q
-    then (st, ph, is_none (qprefix q) || (via_silent st ph q && negb (fixedb (qprefix q) (qns q))))
-    else let (st', ph') := silent_insert st ph q in
-         (st', ph', is_none (qprefix q) || negb (fixedb (qprefix q) (qns q)))
-  else (st, ph, false).
-
-Fixpoint reg_attrs_g (st : sstack) (ph : pstack) (attrs : list attr) : sstack * pstack * bool :=
-  match attrs with
-  | [] => (st, ph, false)
-  | a :: r =>
-    let '(st1, ph1, f1) := reg_attr_g st ph a in
-    let '(st2, ph2, f2) := reg_attrs_g st1 ph1 r in
-    (st2, ph2, f1 || f2)
-  end.
-
-Definition start_elem_g (st : sstack) (ph : pstack) (name : qname) (attrs : list attr)
-  : item * sstack * pstack * bool :=
-  let st0 := nm_empty :: st in
-  let ph0 := [] :: ph in
-  let fname :=
-    if needs_ns name then
-      (if s_find_uri st0 name
-       then via_silent st0 ph0 name && negb (fixedb (qprefix name) (qns name))
-       else false)                                  (* registered AND declared *)
-    else has_default st in                           (* would need xmlns="" *)
-  let st1 := find_or_insert_ns st0 name in
-  let decls := match st1 with m :: _ => m | [] => [] end in
-  let '(st2, ph2, fa) := reg_attrs_g st1 ph0 attrs in
-  (IStart name decls attrs, st2, ph2, fname || fa).
-
-Definition end_elem_g (st : sstack) (ph : pstack) (name : qname) : item * sstack * pstack :=
-  let st' := tl st in
-  let ph' := tl ph in
-  if needs_ns name && negb (s_find_uri st' name)
-  then let (st'', ph'') := silent_insert st' ph' name in (IEnd name, st'', ph'')
-  else (IEnd name, st', ph').
-
-Fixpoint ser_node_g (n : xnode) (st : sstack) (ph : pstack) : list item * sstack * pstack * bool :=
+Fixpoint node_cons (n : xnode) : bool :=
   match n with
   | XElem name attrs kids =>
-    let '(i1, st1, ph1, f1) := start_elem_g st ph name attrs in
-    let '(is, st2, ph2, f2) :=
-      (fix go (l : list xnode) (st : sstack) (ph : pstack) : list item * sstack * pstack * bool :=
-         match l with
-         | [] => ([], st, ph, false)
-         | k :: r => let '(a, st', ph', fa) := ser_node_g k st ph in
-                     let '(b, st'', ph'', fb) := go r st' ph' in (a ++ b, st'', ph'', fa || fb)
-         end) kids st1 ph1 in
-    let '(i2, st3, ph3) := end_elem_g st2 ph2 name in
-    (i1 :: is ++ [i2], st3, ph3, f1 || f2)
-  | XText s => ([IText s], st, ph, false)
-  | XComment s => ([IComment s], st, ph, false)
-  | XPi t d => ([IPi t d], st, ph, false)
-  | XDoctype n _ _ => ([IDoctype n], st, ph, false)
+    elem_cons name attrs &&
+    (fix all (l : list xnode) : bool := match l with [] => true | k :: r => node_cons k && all r end) kids
+  | _ => true
   end.
 
-Fixpoint ser_nodes_g (l : list xnode) (st : sstack) (ph : pstack) : list item * sstack * pstack * bool :=
-  match l with
-  | [] => ([], st, ph, false)
-  | k :: r => let '(a, st', ph', fa) := ser_node_g k st ph in
-              let '(b, st'', ph'', fb) := ser_nodes_g r st' ph' in (a ++ b, st'', ph'', fa || fb)
-  end.
-
-(* a document on which none of the known bookkeeping defects (DESIGN 6.3 row
-   10: attribute prefixes registered after the declarations were written,
-   end_elem re-registering in the parent's scope, missing xmlns="") comes into
-   play *)
-Definition ser_clean (kids : list xnode) : bool := negb (snd (ser_nodes_g kids [] [])).
+Definition forest_cons (l : list xnode) : bool := forallb node_cons l.
 
 (* ------------------------------------------------------------- escaping *)
 
-Definition no_cr_nul (s : str) : bool := forallb (fun c => negb ((c =? 13) || (c =? 0))) s.
+Definition no_nul (s : str) : bool := forallb (fun c => negb (c =? 0)) s.
 
 (* --------------------------------------------- the round trip, executable *)
 
